@@ -431,7 +431,7 @@ def buildLoadBalancer (fmt : Nat → String) (params : Json) : Except BuildErr L
 /-! ### `CompassApp::try_from((&Config, &CompassAppBuilder))`: the stages, first failure wins -/
 
 /-- the stages in the order of the code (the `parallelism` stage fails for a value that is not — or that the
-configuration library cannot turn into — an unsigned integer, and, since fix e253b7d, for 0) -/
+configuration library cannot turn into — an unsigned integer, and, since fix 934a229, for 0) -/
 def buildStages : List String :=
   ["config", "algorithm", "state", "traversal", "access", "cost", "frontier", "termination", "graph",
    "input_plugins", "output_plugins", "parallelism", "search_orientation", "response_persistence_policy",
